@@ -8,7 +8,9 @@ HARNESS_GROUPS = ('g_derived',)
 MACRO_PARTS = ("impls",)
 RULE = ("every operator instance the model predicts from the declarations (catalogue 34, astronomical, synthetic) x "
         "every unit pair of the operand types x amount pairs x the four owned/borrowed forms; oracle = exact-rational "
-        "bound on the result's reference-unit magnitude; non-trivial = both amounts non-zero and finite")
+        "bound on the result's reference-unit magnitude; two-step chains (x*y)/y and (x/y)*y on every unit pair, the "
+        "second step on the implementation's own intermediate, oracle = conclusion of mul_then_div_mag / "
+        "div_then_mul_mag; non-trivial = both amounts non-zero and finite")
 
 
 def gen(w, rng, tier):
@@ -25,6 +27,22 @@ def gen(w, rng, tier):
                     if rng.chance(1, 12):
                         lb, b = rng.choice(specials(w.be))
                     ops.append((f"d{op}:{la}:{lb}", f"d{op} {l} {r} {o} {i} {a} {j} {b}"))
+    # two-step chains: (x * y) / y and (x / y) * y wherever the declarations provide both operators;
+    # the second step runs on what the implementation returned for the first
+    ds = set(w.derived())
+    for (op, l, r, o) in sorted(ds):
+        inv = "div" if op == "mul" else "mul"
+        if (inv, o, r, l) not in ds:
+            continue
+        tl, tr = w.by_name[l], w.by_name[r]
+        chain = "dmd" if op == "mul" else "ddm"
+        for i in range(tl["n"]):
+            for j in range(tr["n"]):
+                ams = amounts(w.be, rng, 3)
+                for _ in range(per):
+                    la, a = rng.choice(ams)
+                    lb, b = rng.choice(ams)
+                    ops.append((f"{chain}:{la}:{lb}", f"{chain} {l} {r} {o} {i} {a} {j} {b}"))
     return ops
 
 
